@@ -1,5 +1,5 @@
 SPECIFICATION Spec
-CONSTANTS Tunings = {"default", "a1", "a1k3", "a05"} MaxGroup = 1 PermSet = "all"
+CONSTANTS Tunings = {"default", "a1", "a1k3", "a1e4"} MaxGroup = 1 PermSet = "all"
 CONSTANT KindSets <- KindSetsMid
 CONSTANT Placements <- PlacementsMid
 CONSTANT SubPatterns <- SubsMid
